@@ -439,13 +439,55 @@ def arm_interleave(res, rng, bts):
 def arm_threads(res, rng, bts, inject=False):
     """8 threads hammer shared schemas / values; every result is compared with the sequential expectation."""
     jobs = []
+    HISTORY_ZONES = {'absent-optional-emptyable-record', 'default-constructed', 'default-choice'}
     for bt in bts:
+        # every entry: (label, callable, what it returns when run alone on these very objects)
+        menu = []
         try:
             e_der = R.der(bt.T, bt.v)
             want_enc = der_encoder.encode(bt.obj)
-            jobs.append((bt, e_der, want_enc))
         except Exception:
             continue
+
+        def dec_with(dec, data, bt=bt):
+            d, rest = dec.decode(data, asn1Spec=bt.schema)
+            return (bytes(rest), U.canon(bt.T, B.absval(d, bt.T)))
+        menu.append(('encode', (lambda bt=bt: der_encoder.encode(bt.obj)), want_enc))
+        menu.append(('decode', (lambda e=e_der, f=dec_with: f(der_decoder, e)), (b'', bt.cv)))
+        # other values of the same type decoded against the SAME schema object (a module-level schema shared by all
+        # threads of a program): different alternatives / optional members / element counts in flight at once
+        o = C.opts_for('quick', rng)
+        for _ in range(3):
+            try:
+                v2 = U.gen_value(rng, bt.T, o, small=True)
+                e2 = R.der(bt.T, v2) if rng.random() < 0.5 else R.ber_variant(bt.T, v2, rng)[0]
+                want2 = (b'', U.canon(bt.T, v2))
+                fn2 = (lambda e=e2, f=dec_with: f(ber_decoder, e))
+                if fn2() == want2:
+                    menu.append(('decode-sibling', fn2, want2))
+            except Exception:
+                continue
+        if not (HISTORY_ZONES & set(bt.feats)):
+            # (values inside the zones of the pinned history-dependent findings keep to the two calls above: there
+            # one call legitimately changes what the next returns, which arm_history reports)
+            extra = []
+            for dm, ck in ((True, 0), (False, 0), (True, rng.choice([1, 2, 3])), (False, rng.choice([2, 4, 5])),
+                           (rng.random() < 0.5, rng.choice([7, 1000]))):
+                extra.append(('encode-ber', (lambda bt=bt, dm=dm, ck=ck: ber_encoder.encode(bt.obj, defMode=dm, maxChunkSize=ck))))
+            extra.append(('encode-cer', (lambda bt=bt: cer_encoder.encode(bt.obj))))
+            extra.append(('encode-native', (lambda bt=bt: repr(native_encoder.encode(bt.obj)))))
+            try:
+                var = R.ber_variant(bt.T, bt.v, rng)[0]
+                extra.append(('decode-ber', (lambda e=var, f=dec_with: f(ber_decoder, e))))
+                extra.append(('decode-cer', (lambda e=R.cer(bt.T, bt.v), f=dec_with: f(cer_decoder, e))))
+            except Exception:
+                pass
+            for label, fn in extra:
+                try:
+                    menu.append((label, fn, fn()))
+                except Exception:
+                    continue        # a call that fails alone (pinned encoder findings) is not part of this arm
+        jobs.append((bt, menu))
     if not jobs:
         return
     problems = []
@@ -485,25 +527,21 @@ def arm_threads(res, rng, bts, inject=False):
         import random
         r = random.Random(tid)
         for _ in range(nloops):
-            bt, e_der, want_enc = r.choice(jobs)
+            bt, menu = r.choice(jobs)
+            decs = [m for m in menu if m[0].startswith('decode')]
+            what, fn, want = r.choice(decs if decs and r.random() < 0.5 else menu)
             try:
-                if r.random() < 0.5:
-                    got = der_encoder.encode(bt.obj)
-                    ok = got == want_enc
-                    what = 'encode'
-                else:
-                    d, rest = der_decoder.decode(e_der, asn1Spec=bt.schema)
-                    ok = (not rest) and U.canon(bt.T, B.absval(d, bt.T)) == bt.cv
-                    what = 'decode'
+                ok = fn() == want
             except Exception as ex:
                 ok = False
-                what = 'raised:%s' % type(ex).__name__
+                what = 'raised:%s:%s' % (what, type(ex).__name__)
             with lock:
                 counters['calls'] += 1
+                counters[what.split(':')[0]] = counters.get(what.split(':')[0], 0) + 1
                 if not ok:
                     problems.append((what, bt))
 
-    threads = [threading.Thread(target=worker, args=(i, 12 if inject else 40)) for i in range(8)]
+    threads = [threading.Thread(target=worker, args=(i, 12 if inject else 60)) for i in range(8)]
     try:
         for t in threads:
             t.start()
@@ -517,6 +555,9 @@ def arm_threads(res, rng, bts, inject=False):
             mon.free_tool_id(5)
     res.see('thread-rounds' + ('-with-yield-injection' if inject else ''))
     res.see('thread-calls', counters['calls'])
+    for k, n in counters.items():
+        if k != 'calls':
+            res.see('thread-calls:' + k, n)
     if inject:
         res.see('thread-switches-observed-inside-repo-code', switches['n'])
     if any(t.is_alive() for t in threads):
